@@ -51,6 +51,16 @@ GUnary == {"negative", "absolute", "sqrt", "square", "reciprocal", "sign", "floo
 GArrFns == {"concatenate", "stack", "vstack", "hstack", "where", "clip", "isclose", "allclose", "array_equal", "array_equiv",
             "intersect1d", "union1d", "setdiff1d", "isin", "searchsorted", "append", "insert", "dot", "inner", "outer", "kron",
             "interp", "allclose_units", "linspace", "select", "copyto_new"}
+\* generic in-place family: out= forms (binary / unary in the operands), forms whose target is x
+GOut2 == {"dot", "outer", "concatenate", "stack", "choose", "clip", "einsum", "m_dot", "m_clip", "uf_add", "uf_mul", "uf_outer", "uf_hypot"}
+GOut1 == {"around", "take", "m_take", "cumsum", "m_cumsum", "m_round", "sum", "m_sum", "mean", "prod", "cumprod", "max", "uf_reduce", "uf_accumulate", "uf_negative", "uf_sqrt"}
+GOutVariants2 == {<<"choose", "oob">>, <<"uf_add", "castno">>, <<"uf_add", "where">>, <<"uf_add", "tuple2">>, <<"uf_mul", "castno">>, <<"dot", "kw">>}
+GOutVariants1 == {<<"take", "oob">>, <<"m_take", "oob">>, <<"uf_negative", "tuple2">>, <<"uf_reduce", "axis9">>, <<"cumsum", "axis9">>}
+GInX == {"setitem_oob", "setitem_fancy_oob", "setitem_fancy", "setitem_mask_bad", "setitem_slice_shape", "put_oob", "m_put", "m_put_oob", "place", "place_badmask",
+         "putmask_badmask", "put_along_axis", "put_along_axis_oob", "fill_diagonal_1d", "copyto_castno", "copyto_where", "copyto_where_bad",
+         "m_fill", "uf_at", "uf_at_oob"}
+GInX1 == {"m_sort", "m_sort_axis9", "convert_to_base", "convert_to_cgs"}
+GOutTargets == {"C", "V", "A"}
 GMethods == {"sum", "mean", "std", "var", "min", "max", "prod", "cumsum", "cumprod", "round", "argsort", "sort", "ptp", "diff",
              "median", "tolist", "astype", "flatten", "unit_array", "to_ndarray", "str"}
 
@@ -76,6 +86,12 @@ Catalogue ==
   \cup {Call("gunary", f, x, "", "", "", "") : f \in GUnary, x \in GX}
   \cup {Call("garrfn", f, x, y, "", "", "") : f \in GArrFns, x \in GX, y \in GY}
   \cup {Call("gmethod", f, x, "", "", "", "") : f \in GMethods, x \in GX}
+  \cup {Call("gin", f, x, y, o, "", e) : f \in GOut2, x \in GX, y \in GX, o \in GOutTargets, e \in {"ok", "ro"}}
+  \cup {Call("gin", fe[1], x, y, o, "", fe[2]) : fe \in GOutVariants2, x \in GX, y \in GX, o \in GOutTargets}
+  \cup {Call("gin", f, x, "", o, "", e) : f \in GOut1, x \in GX, o \in GOutTargets, e \in {"ok", "ro"}}
+  \cup {Call("gin", fe[1], x, "", o, "", fe[2]) : fe \in GOutVariants1, x \in GX, o \in GOutTargets}
+  \cup {Call("gin", f, x, y, "", "", e) : f \in GInX, x \in GX \ {"Q"}, y \in GY, e \in {"ok", "ro"}}
+  \cup {Call("gin", f, x, "", "", "", e) : f \in GInX1, x \in GX \ {"Q"}, e \in {"ok", "ro"}}
 
 \* OpSet restricts the first call, OpSet2 the later ones ({} = no restriction); FocusR: later calls are in-place
 \* calls whose target is R, the result of the previous copying call (does a "new object" share memory with an input?)
@@ -89,7 +105,7 @@ After(S, r) == IF r.res.k \in {"A", "Q"} THEN [r.S EXCEPT !["R"] = r.res] ELSE r
 Step(c) ==
   /\ LET r == Apply(st, c) IN
        /\ st' = After(st, r)
-       /\ mv' = FailedClauses(st, r.S, c, r.ex, IF IsInplace(c) /\ ~r.ex THEN ModelTwin(st, c) ELSE [ex |-> FALSE, n |-> <<>>])
+       /\ mv' = FailedClauses(st, r.S, c, r.ex, IF IsInplace(c) /\ ~r.ex THEN ModelTwin(st, c) ELSE [ex |-> FALSE, n |-> <<>>, npw |-> FALSE])
   /\ hist' = Append(hist, c)
   /\ cfg' = cfg
 
